@@ -1,7 +1,7 @@
 (** C16 — connection IDs: limits honoured both ways, retirements reported, routing clean.
     Only statements live here; each is closed by [exact] of a lemma proved in ConnIDs/. *)
 From Coq Require Import List ZArith Bool.
-From V Require Import Gen.Params Lib.Hex ConnIDs.Model ConnIDs.ProofsGen ConnIDs.ProofsMgr ConnIDs.ProofsMgr2 ConnIDs.ProofsMgr3 ConnIDs.ProofsMgr4 ConnIDs.Routing ConnIDs.ProofsRouting.
+From V Require Import Gen.Params Lib.Hex ConnIDs.Model ConnIDs.ProofsGen ConnIDs.ProofsMgr ConnIDs.ProofsMgr2 ConnIDs.ProofsMgr3 ConnIDs.ProofsMgr4 ConnIDs.ProofsMgr5 ConnIDs.Routing ConnIDs.ProofsRouting ConnIDs.GenRoute ConnIDs.ProofsGenRoute.
 Import ListNotations.
 Open Scope Z_scope.
 
@@ -173,6 +173,25 @@ Theorem C16_tokens_exact_set : forall init ops st,
 Proof. exact tokens_exact_set. Qed.
 Print Assumptions C16_tokens_exact_set.
 
+(** Round 4 - the token discipline derived: on every history the connection produces in which a
+    frame for a sequence number that is not queued never carries a token the manager already
+    holds ([op_okt]: every sequence number has its own token, retransmissions repeat it), the
+    callbacks never register a registered token nor remove an unregistered one, the held tokens
+    are pairwise distinct, the transport's token map is exactly {active token} + probing tokens,
+    and Close empties it (hypothesis [disc] of C16_tokens_exact_set discharged). *)
+Theorem C16_token_discipline : forall init ops st,
+  reachP op_okt init ops st ->
+  disc (m_log st) = true /\ NoDup (all_toks st) /\
+  (forall t, reg t (m_log st) = true <-> In t (atoks st) \/ In t (ptoks (m_probing st))) /\
+  disc (m_log (mgr_close st)) = true /\ (forall t, reg t (m_log (mgr_close st)) = false).
+Proof. exact token_discipline. Qed.
+Print Assumptions C16_token_discipline.
+
+Example C16_token_history_nonvacuous :
+  reachP op_okt w_init (rev w_good) (mgr_run w_good (mgr_init w_init)).
+Proof. exact (hist_oktb_reach w_init w_good w_good_okt). Qed.
+Print Assumptions C16_token_history_nonvacuous.
+
 Example C16_tokens_discipline_nonvacuous : disc (m_log (mgr_run w_good (mgr_init w_init))) = true.
 Proof. exact w_good_disc. Qed.
 Print Assumptions C16_tokens_discipline_nonvacuous.
@@ -291,6 +310,41 @@ Theorem C16_remote_closed_silent : forall s c size,
   hget c (rt_handlers s) = Some HRemote -> rr_sent (snd (rt_step (RDeliver c size) s)) = 0.
 Proof. exact remote_closed_silent. Qed.
 Print Assumptions C16_remote_closed_silent.
+
+(** Round 4 - generator and routing table composed as connection.go wires them ([gr_step]: every
+    callback of a generator call reaches the table; the transport registered the first IDs).
+    (d) For every history of a live connection (generated IDs not already known to the
+    generator, time passing) the table routes to the connection exactly the pairwise distinct IDs
+    the generator knows - client's original destination ID until expiry, active IDs, retired
+    unexpired IDs - nothing else, no timer pending. *)
+Theorem C16_connection_routes_exact : forall i cd l0 ops s,
+  cd <> Some i -> gr_reach i cd l0 ops s ->
+  NoDup (gen_all_ids (fst s)) /\ rt_timers (snd s) = [] /\
+  forall c, hget c (rt_handlers (snd s)) = if cin c (gen_all_ids (fst s)) then Some (HConn 1) else None.
+Proof. exact gr_routes_exact. Qed.
+Print Assumptions C16_connection_routes_exact.
+
+(** (e) Closing, whatever is still waiting for its expiry: RemoveAll leaves nothing of the
+    connection in the table; ReplaceWithClosed maps every one of its IDs to the closed stand-in
+    and after the closing period the table holds nothing of it and no timer is pending. *)
+Theorem C16_connection_cleanup : forall i cd l0 ops s,
+  cd <> Some i -> gr_reach i cd l0 ops s ->
+  (let s1 := fst (gr_step (GROp GRemoveAll) s) in
+   rt_timers (snd s1) = [] /\ forall c, hget c (rt_handlers (snd s1)) = None) /\
+  (forall loc ex d, 0 < ex -> ex <= d ->
+   let s1 := fst (gr_step (GROp (GReplaceClosed loc ex)) s) in
+   (forall c, hget c (rt_handlers (snd s1)) =
+      if cin c (gen_all_ids (fst s)) then Some (if loc then HLocal (rt_nlocal (snd s)) else HRemote) else None) /\
+   let s2 := fst (gr_step (GRAdvance d) s1) in
+   rt_timers (snd s2) = [] /\ forall c, hget c (rt_handlers (snd s2)) = None).
+Proof. exact gr_cleanup. Qed.
+Print Assumptions C16_connection_cleanup.
+
+Example C16_connection_history_nonvacuous :
+  exists s, gr_reach [1] (Some [2]) false
+    [GRAdvance 5; GROp (GRetire 1 [1] 20 [Some [4]]); GROp (GHsDone 10); GROp (GSetMax 2 [Some [3]])] s /\ Some [2] <> Some [1].
+Proof. exact gr_reach_example. Qed.
+Print Assumptions C16_connection_history_nonvacuous.
 
 (** Non-vacuity: a 13-operation history with reordering, Retire Prior To, rotation, path
     probing and a harmless retransmission satisfies the hypotheses of (b), (c), (d). *)
